@@ -274,6 +274,8 @@ ConesOf(k) ==
       C08 |-> IF recv THEN {"out.meas_over", "pend", "panic"} ELSE {},
       C09 |-> IF recv /\ kind \in {"rate", "deny", "ntsn", "kiss"}
                  THEN {"remoteMin", "deny", "since", "tries", "pend", "stratum", "lastPoll", "out.actions", "out.meas", "panic"}
+              \* (a usable answer clears the mark an unauthenticated DENY/RSTR left: "demobilised solely if it also stays unreachable")
+              ELSE IF recv /\ kind = "time" /\ ~Nts THEN {"deny"}
               ELSE IF timer THEN {"out.poll", "out.actions"} ELSE {},
       C10 |-> IF timer THEN {"out.poll", "out.timer_ok", "lastPoll"}
               ELSE IF recv THEN {"remoteMin"} ELSE {},
